@@ -159,6 +159,9 @@ def record(cfg: dict, seed: int, terms: dict) -> sweep.SweepLog:
     P, so = tab["P"], tab["So"]
     n = len(P)
     pvt, kr = mp.interpolators(P, tab["cols"], rho, kr_so, kr_cols, so)
+    if i % 2 == 1:
+        mp.warm_with_other_contents(pvt, kr, [lambda: pseudopressure_threephase(P, so, pvt, kr),
+                                              lambda: lambda_combined_func(P, so, pvt, kr)])
     m = mp.quiet(pseudopressure_threephase, P, so, pvt, kr)
     lam = mp.quiet(lambda_combined_func, P, so, pvt, kr)
     doc = mp.eval_terms(terms["lambda"], pvt, kr, P, so, sw)
